@@ -20,6 +20,7 @@ import (
 	"github.com/mandykoh/prism/ciexyy"
 	"github.com/mandykoh/prism/ciexyz"
 	"github.com/mandykoh/prism/displayp3"
+	"github.com/mandykoh/prism/meta"
 	"github.com/mandykoh/prism/meta/autometa"
 	"github.com/mandykoh/prism/prophotorgb"
 	"github.com/mandykoh/prism/srgb"
@@ -119,6 +120,26 @@ func main() {
 					out = append(out, res{fmt.Sprintf("image-rgba h=%d par=%d", h, par), imgSig(rg.Pix)})
 					cv := prism.ConvertImageToRGBA(src, par)
 					out = append(out, res{fmt.Sprintf("convert h=%d par=%d", h, par), imgSig(cv.Pix)})
+					// an indexed-colour source (GIF, 8-bit PNG): few distinct colours, every worker meets all of them
+					pal := color.Palette{}
+					for k := 0; k < 16; k++ {
+						pal = append(pal, color.NRGBA{uint8(k * 16), uint8(255 - k*9), uint8(k*k + g), uint8(255 - k*(h%5))})
+					}
+					ps := image.NewPaletted(src.Rect, pal)
+					for k := range ps.Pix {
+						ps.Pix[k] = uint8((k*7 + g + h) % 16)
+					}
+					pd := image.NewRGBA64(src.Rect)
+					switch (g + h) % 2 {
+					case 0:
+						srgb.LineariseImage(pd, ps, par)
+					default:
+						adobergb.EncodeImage(pd, ps, par)
+					}
+					out = append(out, res{fmt.Sprintf("image-paletted h=%d par=%d", h, par), imgSig(pd.Pix)})
+					pn := image.NewNRGBA(src.Rect)
+					displayp3.LineariseImage(pn, ps, par)
+					out = append(out, res{fmt.Sprintf("image-paletted-nrgba h=%d par=%d", h, par), imgSig(pn.Pix)})
 				}
 			}
 			return out
@@ -132,8 +153,27 @@ func main() {
 			}
 		}
 	}
+	// values loaded once and then used by every goroutine: a returned *meta.Data / *icc.Profile is read-only
+	// as far as its users can tell, so concurrent use of its accessors must be safe
+	var sharedMD []*meta.Data
+	for _, b := range seedBytes {
+		if md, _, err := autometa.Load(bytes.NewReader(b)); err == nil && md != nil {
+			sharedMD = append(sharedMD, md)
+		}
+	}
 	loaderJob := func(g int) []res {
 		var out []res
+		for i, md := range sharedMD {
+			v := uint64(0)
+			if d, err := md.ICCProfileData(); err == nil {
+				v = imgSig(d)
+			}
+			if p, err := md.ICCProfile(); err == nil && p != nil {
+				d, _ := p.Description()
+				v ^= imgSig([]byte(d)) * 31
+			}
+			out = append(out, res{fmt.Sprintf("shared metadata value %d", i), v})
+		}
 		for i, b := range seedBytes {
 			md, _, err := autometa.Load(bytes.NewReader(b))
 			v := uint64(0)
